@@ -154,7 +154,11 @@ func handleViolation(t *testing.T, prop *Prop, plan *Plan, res *Result) {
 		res.Counters["minimise_execs"] = execs
 	}
 	_ = os.MkdirAll(ReplayDir(), 0755)
-	path := filepath.Join(ReplayDir(), fmt.Sprintf("%s-%d-%d.json", prop.ID, plan.Seed, plan.Index))
+	variant := ""
+	if v := os.Getenv("VERIF_BUILD_TAGS"); v != "" {
+		variant = "-" + v // builds of the same property share seeds: keep their replay files apart
+	}
+	path := filepath.Join(ReplayDir(), fmt.Sprintf("%s%s-%d-%d.json", prop.ID, variant, plan.Seed, plan.Index))
 	rp := &Replay{Plan: minPlan, Violation: minRes.Violation, LogHash: minRes.LogHash, OriginalSteps: res.Steps,
 		OriginalSeed: plan.Seed, BuildTags: os.Getenv("VERIF_BUILD_TAGS"), EventLog: minRes.EventLog}
 	if err := WriteJSON(path, rp); err != nil {
